@@ -467,6 +467,15 @@ def write_evidence(prop, tier, seed, cts, per_contract, obligations, n_obl, n_di
     lv = LEVELS.get(prop, {})
     level = lv.get("level", "other")
     modes = sorted({c.mode for c in cts})
+    partial_shapes, seen_ps = [], set()
+    for j in jobs:
+        pp = j["params"]
+        if pp.get("sample_only") or pp.get("search_paths"):
+            key = (j["cid"], json.dumps(_jsonable({k: v for k, v in pp.items() if not k.startswith("_")}), sort_keys=True, default=str))
+            if key not in seen_ps:
+                seen_ps.add(key)
+                partial_shapes.append(dict(contract=j["cid"], params=json.loads(key[1]),
+                                           how="sampled native runs only" if pp.get("sample_only") else "bounded search of the first %s paths" % pp.get("search_paths")))
     u_obl = [k for k in obligations if C.REGISTRY[k[0]].mode == "U"]
     funcs = []
     for c in cts:
@@ -491,7 +500,10 @@ def write_evidence(prop, tier, seed, cts, per_contract, obligations, n_obl, n_di
             rule="one evaluation = one feasible symbolic path (B/U mode: a set of inputs described by a path condition, all numeric leaves universally quantified) or one enumerated case (E mode) of a contract harness on the real code; paths are distinct by construction (different decision vectors); non-trivial = reached at least one obligation",
             samples=samples or [dict(note="no path completed")],
             explanation=lv.get("explanation", "") + " modes used: %s (U = unbounded VCs, proved; B = bounded-shape symbolic, bounded; E = enumerated, bounded). U-mode obligations: %d of %d." % (",".join(modes), len(u_obl), n_obl),
-            exhaustive=not undecided and not errors,
+            # true only when every shape's finite path space was enumerated completely: sample-only shapes and bounded
+            # searches (search_paths) are listed under partial_shapes and make the run non-exhaustive
+            exhaustive=not undecided and not errors and not partial_shapes,
+            partial_shapes=partial_shapes,
             functions_under_contract=funcs,
             obligation_list=obl_list if len(obl_list) <= 400 else obl_list[:400],
             proved_unbounded=[dict(contract=k[0], obligation=k[1]) for k in sorted(u_obl) if obligations[k]["status"] == "discharged"],
